@@ -358,6 +358,10 @@ class BuiltinMixin:
             h = self.extern_handler("getattr:" + obj.dotted)
             if h is not None:
                 return h(self, args, kwargs, node, None)
+        if isinstance(name, SV) and name.ty == TStr and isinstance(obj, SV) and isinstance(obj.ty, TOpt) and isinstance(obj.ty.elem, (TRec, TRef)):
+            self.oblige("attr", obj.ty.is_some(obj), node, "getattr(None, <name>)")
+            self.assume(obj.ty.is_some(obj))
+            obj = obj.ty.val(obj)
         if isinstance(name, SV) and name.ty == TStr and isinstance(obj, SV) and isinstance(obj.ty, TRec):
             # getattr(record, <symbolic name>, default): a case split over the optional TEXT fields of the record; that the name is
             # not the name of a field of another type is an obligation (the contract's precondition has to provide it)
